@@ -76,7 +76,7 @@ func TestVerif_C01L1(t *testing.T) {
 				}
 			}
 			for h := range got {
-				if b := tree.ByHash[h]; b != nil && b.IsAncestorOf(ptip) && !announced[h] {
+				if b := tree.Get(h); b != nil && b.IsAncestorOf(ptip) && !announced[h] {
 					inSyncViolations++
 				}
 			}
@@ -153,7 +153,7 @@ func TestVerif_C01L1(t *testing.T) {
 			ok = settle("final")
 		}
 		if !ok && stalled != "" {
-			rep.Finding(ci, "C01/L1/stall", "real Node.Run over TCP: "+stalled+" | steps "+fp, map[string]interface{}{"steps": fp, "callbacks": log.strings(0)})
+			rep.Finding(ci, "C01/L1/stall", "real Node.Run over TCP: "+stalled+" | steps "+fp, map[string]interface{}{"steps": fp, "callbacks": log.strings(0), "wire": peer.wireLog()})
 		}
 		if inSyncViolations > 0 {
 			rep.Finding(ci, "C01/L1/insync-before-requested-block-announced", fmt.Sprintf("HandleInSync was delivered while %d block(s) the node had already requested from the peer had not been announced to the handlers", inSyncViolations), map[string]interface{}{"steps": fp, "callbacks": log.strings(0)})
